@@ -20,7 +20,7 @@ ASSUMPTIONS = [
     "independent periodic table (symbol->Z, name->Z for Z<=118) in mc/refs/periodic.py is correct",
     "species are those reachable as module attributes of cherab.core.atomic.elements",
 ]
-REQUIRED_CLASSES = ["lookup:element", "lookup:isotope", "pairs", "lines", "unknown-key-rejected", "cross-registry-sequences"]
+REQUIRED_CLASSES = ["lookup:element", "lookup:isotope", "pairs", "lines", "unknown-key-rejected", "cross-registry-sequences", "first-call-in-fresh-interpreter"]
 BUDGET_S = {"quick": 120, "thorough": 300}
 CHUNK = 4
 
@@ -52,7 +52,55 @@ def cases(tier):
     # lookups are functions of their argument only: the same key through both registries, in both orders, repeated
     out.append({"kind": "cross", "order": "element-first", "label": "cross"})
     out.append({"kind": "cross", "order": "isotope-first", "label": "cross"})
+    # the very first registry call of a fresh interpreter, in every identifier form (an index built lazily on one
+    # code path only would make the answer depend on what was looked up before)
+    for form in FIRST_FORMS:
+        out.append({"kind": "first-call", "form": form, "label": "first-call"})
     return out
+
+
+FIRST_FORMS = ["element:name", "element:symbol", "element:int", "element:str-int", "isotope:name", "isotope:symbol", "isotope:symbol+mass",
+               "isotope:element-object+number", "isotope:element-symbol+number", "isotope:element-int+number", "isotope:element-name+str-number"]
+
+_FIRST_SRC = r"""
+import sys, json
+sys.path.insert(0, sys.argv[2])
+import mc   # (development aid only: honours VERIF_REPO; it imports nothing from cherab)
+from cherab.core.atomic.elements import lookup_element, lookup_isotope
+import cherab.core.atomic.elements as em
+form = sys.argv[1]
+def r(f):
+    try:
+        return repr(f())
+    except Exception as e:
+        return "EXC:" + type(e).__name__
+calls = {
+ "element:name": [lambda: lookup_element("carbon"), lambda: lookup_element("Neon")],
+ "element:symbol": [lambda: lookup_element("he"), lambda: lookup_element("W")],
+ "element:int": [lambda: lookup_element(6), lambda: lookup_element(74)],
+ "element:str-int": [lambda: lookup_element("18"), lambda: lookup_element("1")],
+ "isotope:name": [lambda: lookup_isotope("tritium"), lambda: lookup_isotope("Deuterium")],
+ "isotope:symbol": [lambda: lookup_isotope("D"), lambda: lookup_isotope("t")],
+ "isotope:symbol+mass": [lambda: lookup_isotope("he3"), lambda: lookup_isotope("C13")],
+ "isotope:element-object+number": [lambda: lookup_isotope(em.hydrogen, 2), lambda: lookup_isotope(em.carbon, number=12)],
+ "isotope:element-symbol+number": [lambda: lookup_isotope("he", number=3), lambda: lookup_isotope("H", 3)],
+ "isotope:element-int+number": [lambda: lookup_isotope(1, number=3), lambda: lookup_isotope(6, 13)],
+ "isotope:element-name+str-number": [lambda: lookup_isotope("helium", number="4"), lambda: lookup_isotope("hydrogen", "2")],
+}[form]
+first = [r(f) for f in calls]
+again = [r(f) for f in calls]
+print(json.dumps({"first": first, "again": again}))
+"""
+_FIRST_EXPECT = {
+    "element:name": ["<Element: carbon>", "<Element: neon>"], "element:symbol": ["<Element: helium>", "<Element: tungsten>"],
+    "element:int": ["<Element: carbon>", "<Element: tungsten>"], "element:str-int": ["<Element: argon>", "<Element: hydrogen>"],
+    "isotope:name": ["<Isotope: tritium>", "<Isotope: deuterium>"], "isotope:symbol": ["<Isotope: deuterium>", "<Isotope: tritium>"],
+    "isotope:symbol+mass": ["<Isotope: helium3>", "<Isotope: carbon13>"],
+    "isotope:element-object+number": ["<Isotope: deuterium>", "<Isotope: carbon12>"],
+    "isotope:element-symbol+number": ["<Isotope: helium3>", "<Isotope: tritium>"],
+    "isotope:element-int+number": ["<Isotope: tritium>", "<Isotope: carbon13>"],
+    "isotope:element-name+str-number": ["<Isotope: helium4>", "<Isotope: deuterium>"],
+}
 
 
 def case_variants(s):
@@ -235,6 +283,27 @@ def run_case(case):
                 pass
         classes.append("lines")
 
+    elif kind == "first-call":
+        import json as _json
+        import subprocess
+        import sys as _sys
+        form = case["form"]
+        import os as _os
+        verif = _os.path.dirname(_os.path.dirname(_os.path.abspath(__file__)))
+        p = subprocess.run([_sys.executable, "-c", _FIRST_SRC, form, verif], capture_output=True, text=True, timeout=300)
+        n += 2
+        nontrivial.append(("first-call", form))
+        classes.append("first-call-in-fresh-interpreter")
+        if p.returncode != 0:
+            V(viol, "first-call:%s:interpreter-failed" % form.split(":")[0], "fresh interpreter, first registry call in form %s" % form, "two look-ups", p.stderr[-300:])
+        else:
+            got = _json.loads(p.stdout.strip().splitlines()[-1])
+            want = _FIRST_EXPECT[form]
+            if got["first"] != want:
+                V(viol, "first-call:%s:wrong-result-as-first-call-of-the-process" % form, "the first registry calls of a fresh interpreter (%s)" % form, want, got["first"])
+            elif got["again"] != want:
+                V(viol, "first-call:%s:wrong-result-when-repeated" % form, "repeating the first calls (%s)" % form, want, got["again"])
+
     elif kind == "cross":
         # every identifier spelling of every species goes through BOTH lookup functions (the valid one must return
         # the species, the other must return its own species of that key or raise ValueError), three rounds in one
@@ -294,5 +363,5 @@ def run_case(case):
         classes.append("unknown-key-rejected")
         nontrivial.append(("global",))
 
-    return {"viol": viol, "classes": classes, "outcome": (kind, case.get("attr"), case.get("order"), n, len(viol)), "n": max(n, 1),
-            "states": [(kind, case.get("attr"), case.get("order"))], "transitions": max(n, 1), "nontrivial": nontrivial}
+    return {"viol": viol, "classes": classes, "outcome": (kind, case.get("attr"), case.get("order"), case.get("form"), n, len(viol)), "n": max(n, 1),
+            "states": [(kind, case.get("attr"), case.get("order"), case.get("form"))], "transitions": max(n, 1), "nontrivial": nontrivial}
